@@ -795,4 +795,11 @@ MUTANTS = [
          find='method_component_prefix', replace='component_name_prefix', expect='LOOP-CARRY'),
     dict(name='reintroduce-D16d-properties-subscript', file='pjrpc/server/specs/openrpc.py',
          find="params_schema.get('properties', {}).items()", replace="params_schema['properties'].items()", expect='IFACE-SHAPE'),
+    dict(name='reintroduce-D21-openrpc-shallow-unset-filter', file='pjrpc/server/specs/openrpc.py',
+         find='        return drop_unset(dc.asdict(spec))\n',
+         replace='        return dc.asdict(spec, dict_factory=lambda items: dict(i for i in items if i[1] is not UNSET))\n', expect='ENCODABLE'),
+    dict(name='reintroduce-D22-type-none', file='pjrpc/server/specs/extractors/docstring.py',
+         find="'type': param.type_name if param.type_name is not None else UNSET,", replace="'type': param.type_name,", expect='NONE-LEAK'),
+    dict(name='summary-none', file='pjrpc/server/specs/extractors/docstring.py',
+         find='description = doc.short_description or UNSET', replace='description = doc.short_description', expect='NONE-LEAK'),
 ]
